@@ -45,7 +45,7 @@ CHECKS = {
         'slot and a function-pointer cast rendered from the same signature; stack effect and result declaration are right. On a module with '
         'two imports and three functions the call emitter, the import/function declarations, the definitions, the export wrappers, the element '
         'stores, the start call and the symbol-prefixed variants all spell the same identifier for the same module-level index and pick the '
-        'type through imports first; WASI imports are spelled exactly as the symbols wasi.c defines. A call or call_indirect in unreachable code, translated from bytes (minimal and padded LEB128), consumes exactly its immediates and emits nothing (R04.6). Each function is translated with an empty operand stack whatever the function written before it left (R04.7, shared with C03).',
+        'type through imports first; WASI imports are spelled exactly as the symbols wasi.c defines. A call or call_indirect in unreachable code, translated from bytes (minimal and padded LEB128), consumes exactly its immediates and emits nothing (R04.6). Each function is translated with an empty operand stack whatever the function written before it left (R04.7, shared with C03). An imported table / global is bound with resolve() literals denoting exactly the import\'s two names, also for names whose escapes could swallow a following digit (R04.8).',
    note='Runtime table bounds/signature checks are outside the property; the C ABI is trusted.',
    ref='DESIGN.md 4/C04'),
  'C05': dict(
@@ -67,7 +67,7 @@ CHECKS = {
         '(defined or imported) memory reachable from Instantiate; element stores target the right table with offset+k and module-level '
         'function identifiers. The instance record holds imports as pointers and defined state by value, no mutable file-scope state is '
         'emitted, imports are bound via resolve("module","name") with the right pointer type, globals are initialised through imported '
-        'pointers, non-shared memories are allocated per instance and shared ones inherited, export wrappers and the FuncExports table are exact. Import and export names reach resolve() / the export table as C string literals denoting exactly the name\'s bytes (R06.9, shared with C11).',
+        'pointers, non-shared memories are allocated per instance and shared ones inherited, export wrappers and the FuncExports table are exact. Import and export names reach resolve() / the export table as C string literals denoting exactly the name\'s bytes (R06.9, shared with C11). The set-up emitters are evaluated with strict array bounds: a read past a module array (an index of one space used in another) is a violation (R06.10).',
    note='What the embedder\'s resolver returns, allocation failure and calloc semantics are outside the analysis.',
    ref='DESIGN.md 4/C06'),
  'C07': dict(
@@ -102,7 +102,7 @@ CHECKS = {
         'function or casts away const from module data; the stateful debug-line cursor reaches workers only under threadCount == 1. The '
         'split loops append each function exactly once to exactly one list before advancing, static only under hash equality with the '
         'consumed reference entry. For about 650 template pairs the pretty and compact forms have the same typed AST and symbol prefixing '
-        'only prefixes callee identifiers; all File/String twin emitters agree on a grid of names/indices/flags. The getopt option string and the option switch agree on which options take an argument (R09.12); the export-section reader records the export name of every defined function, the first one included, which -g consults (R09.13). The static/dynamic split is evaluated on concrete hash-sorted lists: every function lands in exactly one list (R09.3). Every local has its own zero initialiser in the compact and in the pretty output (R09.14, shared with C03 / C11).',
+        'only prefixes callee identifiers; all File/String twin emitters agree on a grid of names/indices/flags. The getopt option string and the option switch agree on which options take an argument (R09.12); the export-section reader records the export name of every defined function, the first one included, which -g consults (R09.13). The static/dynamic split is evaluated on concrete hash-sorted lists: every function lands in exactly one list (R09.3). Every local has its own zero initialiser in the compact and in the pretty output (R09.14, shared with C03 / C11). The producer waits under the lock for an empty task slot before posting the next task and before announcing done (R09.15).',
    note='Not decided: byte-identical output and deadlock freedom under every interleaving (schedule-quantified; the rules are the structural '
         'necessary conditions), the file-count arithmetic for all (n, f), -g/-r behaviour beyond these rules, compile-on-its-own of every emitted file.',
    ref='DESIGN.md 4/C09'),
@@ -165,7 +165,7 @@ CHECKS = {
         'coefficient-wise, by a guard of its path (so an off-by-one in either guard is reported with the offending index expression), the '
         'empty path is rejected, absolute paths are copied unchanged, a separator is inserted iff needed; descriptor paths satisfy 0 < len < PATH_MAX. '
         'fd_readdir, for {stream open, closed} x {cookie 0, unknown}: the first readdir() is always preceded by opendir/seekdir/rewinddir; dirent '
-        'fields are stored at the witx offsets with telldir/inode/strlen values, the name follows the record, bufused = buflen signals a full buffer. Every path import is additionally evaluated with concrete resolved paths (root, doubled and trailing separators): the bytes handed to the host call are the resolved path, for rmdir/mkdir up to trailing separators (R14.12). The errno table has rows for the errors POSIX requires of the named operations (ENOTEMPTY, ELOOP, ENAMETOOLONG, EOVERFLOW). With the host call failing, every path import returns exactly the witx number of errno for a family of errno values (R14.13). An entry whose name is cut by the end of the buffer still carries its full name length.',
+        'fields are stored at the witx offsets with telldir/inode/strlen values, the name follows the record, bufused = buflen signals a full buffer. Every path import is additionally evaluated with concrete resolved paths (root, doubled and trailing separators): the bytes handed to the host call are the resolved path, for rmdir/mkdir up to trailing separators (R14.12). The errno table has rows for the errors POSIX requires of the named operations (ENOTEMPTY, ELOOP, ENAMETOOLONG, EOVERFLOW). With the host call failing, every path import returns exactly the witx number of errno for a family of errno values (R14.13). An entry whose name is cut by the end of the buffer still carries its full name length. Every successful fd_readdir path leaves the directory stream in the descriptor table, so cookies returned earlier stay resumable after the end was reached (R14.15).',
    note='Host directory semantics (stable telldir cookies), completeness of a listing across calls and symlink-follow flags are not decided. '
         'The unbounded strcat in the lstat fallback of fd_readdir is recorded as a note (not replayable here).',
    ref='DESIGN.md 4/C14'),
@@ -205,7 +205,7 @@ CHECKS = {
    technique='static lock-set consistency over partial-evaluation path summaries (ordered read/write/lock/unlock traces of the memory descriptor); mutex balance of every runtime function that takes the memory mutex in both atomics configurations; rendered InitMemories for every limits pair',
    text='On every shared path of wasmMemoryGrow all reads and writes of pages/size lie inside the single, balanced lock region of the '
         'memory mutex; shared memories are never reallocated or given a new data pointer; failed grows store nothing; the memory.size '
-        'template reads the page count through an accessor whose summary holds the mutex (a plain field read is reported). A size-publishing function clears storage only inside the lock region and before the page count is stored. The memory.grow / memory.size templates hand the full 32-bit operand to the runtime (R18.7, shared with C05).',
+        'template reads the page count through an accessor whose summary holds the mutex (a plain field read is reported). A size-publishing function clears storage only inside the lock region and before the page count is stored. The memory.grow / memory.size templates hand the full 32-bit operand to the runtime (R18.7, shared with C05). The futex wait paths are evaluated for infinite, 1000 ns, 0 and 1 ns timeouts when the mutex balance is decided.',
    note='Decides the structural premises of linearizability (consistent lock set, balanced regions), not the interleaving semantics; '
         'pthread mutex semantics trusted; fairness not addressed.',
    ref='DESIGN.md 4/C18'),
